@@ -608,7 +608,43 @@ def r18_6(ctx: Ctx):
     ctx.floor(rid, 'mutation sites outside the problem classes', n, 100)
 
 
+def r18_7(ctx: Ctx):
+    """Metadata ownership: what an instance declares is its own.  A bound / name vector or a known-optimum object
+    that is a process-wide object (allocated at import, as a default argument, or inside a memoised factory) is the
+    same object in every instance that received it: editing the box of one instance in place re-declares the box of
+    all the others, including instances constructed later."""
+    rid = 'R18.7'
+    ctx.rule(rid, 'metadata ownership: the bound vectors, the name vectors and the known optimum of a shipped problem '
+                  'instance are allocated by its construction, not shared process-wide objects (module / default '
+                  'argument / memoised factory)')
+    pta = ctx.pta
+    base = ctx.ix.cls('Problem')
+    fields = ('lowerBoundOfFloatVariables', 'upperBoundOfFloatVariables', 'floatVariableNames', 'knownOptimum',
+              'discreteVariableNames', 'discreteVariableValues')
+    n = 0
+    for cls in shipped_problems(ctx):
+        objs = [o for o in pta._objs.values() if o.cls is cls and o.kind in ('inst', 'ext_inst')]
+        for fld in fields:
+            vals = set()
+            for o in objs:
+                vals |= pta.read_field(o, fld)
+            vals = {v for v in vals if v.kind in ('list', 'ndarray', 'dict', 'set', 'inst', 'tuple')}
+            if not vals:
+                continue
+            n += 1
+            bad = sorted((v for v in vals if v.is_singleton_scope), key=lambda v: v.site)
+            ctx.check(not bad, rid, f'{cls.name}.{fld}', cls.module.relpath,
+                      f'{cls.name}.{fld} is allocated per instance',
+                      f'{cls.name}.{fld} can be a process-wide object ({bad[0].describe() if bad else ""}): every '
+                      f'instance that received it declares the same mutable object, so an in-place edit of one '
+                      f'instance\'s metadata changes what the others (and later ones) declare',
+                      key=f'{rid}::{cls.name}::{fld}::shared')
+    ctx.floor(rid, 'metadata fields of shipped problem classes with resolved objects', n, 20)
+
+
 def check(ctx: Ctx):
+    if C.want(ctx, 'R18.7'):
+        r18_7(ctx)
     if C.want(ctx, 'R18.6'):
         r18_6(ctx)
     if C.want(ctx, 'R18.4'):
